@@ -282,12 +282,77 @@ fn tall_screens(ctx: &Ctx, rep: &mut Report) {
     }
 }
 
+/// Limits in the millions: the bound is `rows + L + L/10` for every L, also where a
+/// floating-point factor or a "practically unlimited" cut-off would start to differ - one
+/// burst past the hard limit, then line by line, then a shrink.
+fn huge_limits(ctx: &Ctx, rep: &mut Report) {
+    use rayon::prelude::*;
+    let limits: Vec<usize> = ctx.tier.pick(vec![1_000_000, 1_048_577, 1_572_869, 1_572_879], vec![999_999, 1_000_000, 1_048_577, 1_572_869, 1_572_879, 1_600_003, 2_000_001, 2_999_999, 4_194_305]);
+    let bad: Vec<String> = limits
+        .par_iter()
+        .filter_map(|&l| {
+            let r = crate::engine::guarded(|| {
+                let rows = 2usize;
+                let bound = rows + l + l / 10;
+                let mut vt = build_vt(2, rows, Some(l));
+                let _ = vt.feed_str("\x1b[2;1H");
+                // up to the hard limit exactly (allowed), in bursts
+                let mut fed = 0usize;
+                let target = l + l / 10 + 1; // rows-1 lines stay on screen, so this many LFs fill the scrollback to hard
+                let burst = "\n".repeat(100_000);
+                while fed + 100_000 <= target {
+                    let _ = vt.feed_str(&burst);
+                    fed += 100_000;
+                    if vt.lines().len() > bound {
+                        return Some(format!("after {} line feeds lines() has {} lines, the bound is {}", fed, vt.lines().len(), bound));
+                    }
+                }
+                let _ = vt.feed_str(&"\n".repeat(target - fed));
+                for k in 0..6 {
+                    let n = vt.lines().len();
+                    if n > bound {
+                        return Some(format!("after {} line feeds lines() has {} lines, the bound is {}", target + k, n, bound));
+                    }
+                    let _ = vt.feed_str("x\r\n");
+                }
+                let _ = vt.resize(2, 1);
+                let n = vt.lines().len();
+                if n > 1 + l + l / 10 {
+                    return Some(format!("after shrinking to one row lines() has {} lines, the bound is {}", n, 1 + l + l / 10));
+                }
+                let _ = vt.feed_str("\x1bc");
+                let _ = vt.feed_str(&"\n".repeat(target + 3));
+                let n = vt.lines().len();
+                if n > 1 + l + l / 10 {
+                    return Some(format!("after a hard reset and {} line feeds lines() has {} lines, the bound is {}", target + 3, n, 1 + l + l / 10));
+                }
+                None
+            });
+            match r {
+                Ok(None) => None,
+                Ok(Some(d)) => Some(format!("limit {}: {}", l, d)),
+                Err(p) => Some(format!("limit {}: panic: {}", l, p)),
+            }
+        })
+        .collect();
+    let n = limits.len() as u64;
+    rep.evaluations += n * 30;
+    rep.transitions += n * 30;
+    rep.parts.push(serde_json::json!({"part":"limits-in-the-millions","limits":limits,"violating":bad.len()}));
+    println!("part limits-in-the-millions: {} limits, {} violating", n, bad.len());
+    if let Some(d) = bad.first() {
+        emit_violation(ctx, rep, "C13", serde_json::json!({"part":"limits-in-the-millions","oracle":"retention-bound","observed":d}));
+        rep.violations += bad.len() as u64 - 1;
+    }
+}
+
 pub fn run(ctx: &Ctx) -> Report {
     let mut rep = Report::new();
     let p = parts!(ctx.tier);
     run_part(ctx, &mut rep, &p);
     builder_orders(ctx, &mut rep);
     tall_screens(ctx, &mut rep);
+    huge_limits(ctx, &mut rep);
     rep.rule = "BFS over histories of scroll-producing feeds (drained, dropped, partially drained, per-char) and resizes for limits 0,1,2,3,9,10,11,20; after every feed_str/resize call lines().len() is compared with rows+L+floor(L/10) and with rows on the alternate screen; non-trivial = calls that return with scrollback present; builder-call-orders: every sequence of <= 3 Builder calls over two sizes and three limits (156 sequences, first and second terminal built), then three scrolling calls under the bound of the limit last given".into();
     rep.assumptions = vec![
         "alternate-screen showing is tracked syntactically from the commands (alphabet has no truncated sequences)".into(),
@@ -303,6 +368,12 @@ pub fn replay(ctx: &Ctx, v: &Value) -> bool {
         return rep.violations > 0;
     }
     let tier = if v["tier"] == "thorough" { Tier::Thorough } else { Tier::Quick };
+    if v["part"] == "limits-in-the-millions" {
+        let mut rep = Report::new();
+        let c2 = Ctx { id: ctx.id.clone(), tier, seed: 0, start: ctx.start, known: ctx.known.clone(), replay_dir: ctx.replay_dir.clone() };
+        huge_limits(&c2, &mut rep);
+        return rep.violations > 0;
+    }
     if v["part"] == "tall-screens-small-limits" {
         let mut rep = Report::new();
         let c2 = Ctx { id: ctx.id.clone(), tier, seed: 0, start: ctx.start, known: ctx.known.clone(), replay_dir: ctx.replay_dir.clone() };
